@@ -299,6 +299,7 @@ func spaces() []space {
 		{"12-tokens", timed(rangeN(12), []int{0}), []int{4, ctx.Pick(5, 6)}, []int{0}, base},
 		{"shapes-depth1", timed(all, rangeN(len(deltas))), []int{1}, []int{0, 1}, smfgen.Shapes(true)},
 		{"shapes-depth2", timed(rangeN(8), []int{0, 1}), []int{2}, []int{0}, smfgen.Shapes(false)},
+		{"alien-chunk-types", timed(rangeN(6), []int{0, 1}), []int{1, 2}, []int{0}, smfgen.AlienTypes()},
 	}
 	if ctx.Thorough() {
 		sps = append(sps, space{"all-tokens-3-deltas-depth3-shapes", timed(all, []int{0, 1, 2}), []int{3}, []int{0, 1}, smfgen.Shapes(false)[:0]})
